@@ -38,7 +38,7 @@ var vC15Rules = []vC15Rule{
 	{"HEAD!=\\.html$", false, "HEAD", true, "\\.html$"},
 }
 
-// verif: unwind=4 strlen=12
+// verif: unwind=4 strlen=12 also=C01
 func vh_C15_routes() {
 	k := ndChoice("rule", len(vC15Rules))
 	r := vC15Rules[k]
